@@ -145,17 +145,21 @@ func (a *CreateSnapshot) Execute(ctx context.Context, tx *ent.Tx) error {
 				message.PublishedAtGTE(oldestUnAcked.PublishedAt),
 				func(s *sql.Selector) {
 					t := sql.Table(delivery.Table).As("d")
-					s.LeftJoin(t).On(s.C(message.FieldID), t.C(delivery.FieldMessageID))
-					s.Where(sql.And(
-						// only care about deliveries for the same sub
+					// only care about deliveries for the same sub: this has to be part of
+					// the join condition, as a WHERE condition it would drop exactly the
+					// "no delivery" rows the left join is here to find
+					s.LeftJoin(t).OnP(sql.And(
+						sql.ColumnsEQ(s.C(message.FieldID), t.C(delivery.FieldMessageID)),
 						sql.EQ(t.C(delivery.FieldSubscriptionID), sub.ID),
+					))
+					s.Where(
 						sql.Or(
 							// no delivery
 							sql.IsNull(t.C(delivery.FieldID)),
 							// completed delivery
 							sql.NotNull(t.C(delivery.FieldCompletedAt)),
 						),
-					))
+					)
 				},
 			).
 			IDs(ctx)
